@@ -154,9 +154,11 @@ def generate(run_seed: int, tier: str, *, faults: bool) -> dict:
             how = rng.choice(["pickle2", "pickle3", "pickle4", "pickle5", "pickle5", "copy", "deepcopy", "mm_pickle", "mm_copy", "mm_deepcopy", "update"])
             if how.startswith("mm_") and h["id"] != 0:
                 how = "pickle5"
+            if rng.random() < 0.22:
+                how = "xproc"  # pickled here, restored in ANOTHER interpreter (other hash seed): the real life of a pickled spec
             new = {"id": len(handles), "kind": "restart" if h["kind"] in ("root", "restart") else h["kind"], "of": h["id"]}
             handles.append(new)
-            ops.append({"op": "restart", "h": h["id"], "new": new["id"], "how": how, "ids": sigma()})
+            ops.append({"op": "restart", "h": h["id"], "new": new["id"], "how": how, "ids": sigma(), "pick": [rng.random() < 0.6 for _ in range(12)]})
         elif kind == "subset":
             h = rng.choice([x for x in handles if x["kind"] in ("root", "restart")])
             new = {"id": len(handles), "kind": "subset", "of": h["id"]}
@@ -601,6 +603,28 @@ def execute(scenario: dict, env: Any, *, prop: str) -> dict:
                     check_follow(h, ids, got, "c09:level-gain", skip_rows=set(fl["rows"]))
                     bump(stats, "probes", "level_gain_rows_checked")
                 continue
+            if kind == "restart" and op["how"] == "xproc":
+                xp = env.resources.get("xproc") if env is not None else None
+                ids = op["ids"]
+                if xp is None or not ids:
+                    continue
+                msg = {"blob": pickle.dumps(h["spec"], protocol=5), "universe": u, "container": sc["container"], "ids": ids, "pick": op.get("pick", [])}
+                theirs = xp.eval(msg)
+                if "oracle_error" in theirs:
+                    raise RuntimeError("xproc helper error: " + theirs["oracle_error"])
+                mine = xproc_payload(h["spec"], msg)
+                bump(stats, "faults", "restart:xproc")
+                bump(stats, "extra", "xproc_hash_seed_differs", int(theirs.get("hashseed") != env.hashseed))
+                sig.append(["restart", "xproc", h["kind"], h["depth"]])
+                log.append([step, "restart", "xproc", [k for k in sorted(mine) if k != "hashseed"]])
+                for key in sorted(set(mine) | set(theirs)):
+                    if key == "hashseed":
+                        continue
+                    a, b = mine.get(key), theirs.get(key)
+                    if not xproc_equal(a, b):
+                        raise Violation("c04:restart-not-identical", {"how": "xproc: spec pickled here, restored in another interpreter (PYTHONHASHSEED %s vs %s)" % (env.hashseed, theirs.get("hashseed")),
+                                                                      "aspect": key, "original": xproc_brief(a), "restored": xproc_brief(b)})
+                continue
             if kind == "restart":
                 how = op["how"]
                 try:
@@ -758,6 +782,72 @@ def execute(scenario: dict, env: Any, *, prop: str) -> dict:
                        "ops": [{k: (v if k != "ids" else len(v)) for k, v in o.items() if k not in ("pick",)} for o in sc["ops"][:10]]}
     _ = formulaic
     return {"violation": violation, "log": log, "stats": stats}
+
+
+def xproc_payload(spec: Any, msg: dict) -> dict:
+    """What is asked of a spec on either side of a cross-process restart (same code runs in both interpreters)."""
+    import os
+
+    from formulaic import ModelSpec
+    from formulaic.parser.types import Factor, Term
+    from formulaic.utils.structured import Structured
+
+    out: dict[str, Any] = {"hashseed": os.environ.get("PYTHONHASHSEED")}
+    data = world.take(msg["universe"], msg["ids"], container=msg["container"], index="rid")
+
+    def attempt(key: str, fn: Any) -> None:
+        try:
+            with warnings.catch_warnings():
+                warnings.simplefilter("ignore")
+                out[key] = fn()
+        except Exception as e:  # noqa: BLE001
+            out[key] = {"raised": type(e).__name__ + ": " + str(e)[:200]}
+
+    def pack(mm: Any) -> list:
+        return [[list(map(str, p)), m["names"], m["arr"]] for p, m in canon(mm, Structured)]
+
+    attempt("follow", lambda: pack(spec.get_model_matrix(data, context=world.user_context())))
+    if isinstance(spec, ModelSpec) and spec.structure is not None:
+        terms = list(spec.terms)
+        sel = [t for t, p in zip(terms, msg.get("pick", [])) if p] or terms[:1]
+        # the caller names terms afresh (strings / new Term objects), it does not hold the restored Term instances
+        fresh = [Term([Factor(f.expr, eval_method=f.eval_method, kind=f.kind) for f in t.factors]) for t in sel]
+        attempt("subset_columns", lambda: list(spec.subset(fresh).column_names))
+        attempt("subset_follow", lambda: pack(spec.subset(fresh).get_model_matrix(data, context=world.user_context())))
+        attempt("term_indices", lambda: [list(spec.term_indices[t]) for t in fresh])
+        attempt("term_slices", lambda: [[spec.get_slice(t).start, spec.get_slice(t).stop] for t in fresh])
+        attempt("get_term_indices", lambda: list(spec.get_term_indices(fresh)))
+        attempt("column_names", lambda: list(spec.column_names))
+    return out
+
+
+def oracle_eval(msg: dict) -> dict:
+    """Entry point of the cross-process helper (runs in a forked child of a template interpreter under another hash seed)."""
+    import_formulaic_checked()
+    return xproc_payload(pickle.loads(msg["blob"]), msg)
+
+
+def xproc_equal(a: Any, b: Any) -> bool:
+    import numpy as np
+
+    if isinstance(a, dict) or isinstance(b, dict):
+        # both raised: equal outcome (class may legitimately differ); one raised: different
+        return isinstance(a, dict) and isinstance(b, dict)
+    if isinstance(a, list) and isinstance(b, list):
+        return len(a) == len(b) and all(xproc_equal(x, y) for x, y in zip(a, b))
+    if isinstance(a, np.ndarray) or isinstance(b, np.ndarray):
+        return isinstance(a, np.ndarray) and isinstance(b, np.ndarray) and close(a, b)
+    return a == b
+
+
+def xproc_brief(x: Any) -> Any:
+    import numpy as np
+
+    if isinstance(x, list):
+        return [xproc_brief(y) for y in x][:6]
+    if isinstance(x, np.ndarray):
+        return {"shape": list(x.shape), "head": x[:2].tolist()}
+    return x
 
 
 def _isnull(x: Any) -> bool:
